@@ -12,7 +12,7 @@ func init() { registry["C15"] = propC15 }
 
 func propC15() *Property {
 	return &Property{
-		ID: "C15",
+		ID:          "C15",
 		Explanation: "Structural clauses of the rendering property. Decided: (R1) in every markup implementation the text returned by the function that Render(width) calls is, up to trimming, the result of ansi.Wrap / ansi.DumbWrap with exactly the requested width — the three implementations of one interface must agree on this final wrap; (R2) the render cache is consulted only for an equal width and is overwritten together with its width: Render returns the cached text only on the cachedWidth == width edge, every other return stores the freshly rendered text and the width it was rendered at, constructors initialise the pair consistently, nothing else writes the pair; (R3) rendering is a function of content and width: the render functions (transitively) write no field, no package-level variable and nothing reachable from their inputs, and read no package-level state other than the immutable configuration and compiled regexps. NOT decided: the numeric bound itself (that ansi.Wrap honours its width is C13, not applicable) and the content of the rendering.",
 		Assumptions: []string{"config.Parsed is immutable after start-up (C08.R6)"},
 		Rules: []Rule{
@@ -96,7 +96,7 @@ func c15R1(c *Ctx) {
 			why := "the returned text is not the result of ansi.Wrap / ansi.DumbWrap: lines can be longer than the requested width"
 			if call, ok := v.(*ssa.Call); ok {
 				if sc := call.Call.StaticCallee(); sc == wrap || sc == dumb {
-					if call.Call.Args[1] == ssa.Value(width) {
+					if unwrapLoad(call.Call.Args[1]) == ssa.Value(width) {
 						okW = true
 					} else {
 						why = "the final wrap uses " + lin(call.Call.Args[1]).String() + " instead of the requested width"
@@ -110,7 +110,7 @@ func c15R1(c *Ctx) {
 		eachInstr(r, func(_ *ssa.BasicBlock, _ int, in ssa.Instruction) {
 			if call, ok := in.(*ssa.Call); ok && call.Call.StaticCallee() == fn {
 				last := call.Call.Args[len(call.Call.Args)-1]
-				c.check(last == ssa.Value(r.Params[1]), FuncName(r)+"/passes-width", P.InstrPos(in), FuncName(r), "renders at the requested width", "Render renders at a width other than the one requested")
+				c.check(unwrapLoad(last) == ssa.Value(r.Params[1]), FuncName(r)+"/passes-width", P.InstrPos(in), FuncName(r), "renders at the requested width", "Render renders at a width other than the one requested")
 			}
 		})
 	}
@@ -128,7 +128,7 @@ func c15R2(c *Ctx) {
 				return false
 			}
 			fa, ok := u.X.(*ssa.FieldAddr)
-			return ok && fa.X == ssa.Value(recv) && fieldOf(fa).Name() == name
+			return ok && unwrapLoad(fa.X) == ssa.Value(recv) && fieldOf(fa).Name() == name
 		}
 		for _, b := range r.Blocks {
 			ret, ok := b.Instrs[len(b.Instrs)-1].(*ssa.Return)
@@ -143,7 +143,7 @@ func c15R2(c *Ctx) {
 					if !ok || cmp.Op != token.EQL {
 						continue
 					}
-					if (isField(cmp.X, "cachedWidth") && cmp.Y == ssa.Value(width)) || (isField(cmp.Y, "cachedWidth") && cmp.X == ssa.Value(width)) {
+					if (isField(cmp.X, "cachedWidth") && unwrapLoad(cmp.Y) == ssa.Value(width)) || (isField(cmp.Y, "cachedWidth") && unwrapLoad(cmp.X) == ssa.Value(width)) {
 						okEq = true
 					}
 				}
@@ -155,7 +155,7 @@ func c15R2(c *Ctx) {
 			okFresh := false
 			why := "Render returns something that is neither the cache nor a fresh rendering at the requested width"
 			if ex, ok := v.(*ssa.Extract); ok && ex.Index == 0 {
-				if call, ok := ex.Tuple.(*ssa.Call); ok && call.Call.StaticCallee() == m.inner && call.Call.Args[len(call.Call.Args)-1] == ssa.Value(width) {
+				if call, ok := ex.Tuple.(*ssa.Call); ok && call.Call.StaticCallee() == m.inner && unwrapLoad(call.Call.Args[len(call.Call.Args)-1]) == ssa.Value(width) {
 					var stText, stWidth bool
 					eachInstr(r, func(_ *ssa.BasicBlock, _ int, in ssa.Instruction) {
 						st, ok := in.(*ssa.Store)
@@ -163,14 +163,14 @@ func c15R2(c *Ctx) {
 							return
 						}
 						fa, ok := st.Addr.(*ssa.FieldAddr)
-						if !ok || fa.X != ssa.Value(recv) {
+						if !ok || unwrapLoad(fa.X) != ssa.Value(recv) {
 							return
 						}
 						switch fieldOf(fa).Name() {
 						case "cached":
 							stText = st.Val == v
 						case "cachedWidth":
-							stWidth = st.Val == ssa.Value(width)
+							stWidth = unwrapLoad(st.Val) == ssa.Value(width)
 						}
 					})
 					switch {
